@@ -168,7 +168,7 @@ Trail3   == <<0, 0, 9>>
 
 \* the deviation's prediction for reading the specification's bytes: a StrictKeyed decoder
 Dk(bytes) == LET r == DecAt(bytes, 1, TRUE)
-             IN IF r.ok THEN [ok |-> TRUE, n |-> r.n, re |-> EncBytes(r.v)] ELSE [ok |-> FALSE]
+             IN IF r.ok THEN [ok |-> TRUE, n |-> r.n, re |-> Enc(r.v)] ELSE [ok |-> FALSE]  \* re: a layout (free ECMA counts)
 
 TreeCase(v) ==
   LET sz == Size(v)
@@ -186,7 +186,10 @@ RawCase(c) ==
 
 Item(w, bytes, keyed) ==
   LET r == DecAt(bytes, 1, keyed)
-  IN [w |-> w, enc |-> <<Raw(bytes)>>, ok |-> r.ok, size |-> IF r.ok THEN r.n ELSE 0]
+      \* the same bytes as a layout of the decoded value where that is possible, so that the fields the format leaves
+      \* to the writer (ECMA counts) are marked as such
+      lay == IF r.ok /\ EncBytes(r.v) = SubSeq(bytes, 1, r.n) THEN Enc(r.v) \o <<Raw(Drop(bytes, r.n))>> ELSE <<Raw(bytes)>>
+  IN [w |-> w, enc |-> lay, ok |-> r.ok, size |-> IF r.ok THEN r.n ELSE 0]
 MarkerCase(m) ==
   [kind |-> "marker", fam |-> fam, m |-> m, class |-> Discover(m),
    items |-> << Item("top", WrapTop(m), FALSE), Item("obj", WrapObj(m), FALSE), Item("ecma", WrapEcma(m), FALSE),
